@@ -3,10 +3,14 @@ From HV Require Import Base.Prelude Model.Store Proofs.Store Proofs.StoreOps.
 
 Local Open Scope N_scope.
 
+Section WithPatches.
+Variables bp ba : bool.
+Notation cfgb := (gcfg bp ba).
+
 Record st_ok (s : state) : Prop := {
-  ok_conf : conf s = cfg_fixed;
+  ok_conf : conf s = cfgb;
   ok_ext : ext_ok (st s);
-  ok_lens : lens_ok cfg_fixed (exts (st s));
+  ok_lens : lens_ok cfgb (exts (st s));
   ok_objs : objs_ok (objs s);
   ok_fs : ovf (st s) = false -> fsize (st s) <= next (al (st s));
   ok_sb : ovf (st s) = false -> sb_size (sbv s) <= next (al (st s));
@@ -45,9 +49,9 @@ Proof. intros s o H. unfold compile. rewrite H. reflexivity. Qed.
 (* everything the generic layer gives for one API call *)
 Lemma step_api_keeps : forall s o T,
   st_ok s -> is_session_op o = false ->
-  cmds_ok cfg_fixed T [] (fst (fst (compile s o))) = true ->
+  cmds_ok cfgb T [] (fst (fst (compile s o))) = true ->
   ovf (st (fst (step s o))) = false ->
-  keeps cfg_fixed T (next (al (st s))) (clear_log (st s)) (st (fst (step s o))).
+  keeps cfgb T (next (al (st s))) (clear_log (st s)) (st (fst (step s o))).
 Proof.
   intros s o T Hs Ho HC Hov. rewrite (step_api s o Ho) in *.
   destruct (compile s o) as [[cmds ok] upd]. cbn [fst] in HC.
@@ -64,7 +68,7 @@ Proof.
   intros s o Hs. destruct (is_session_op o) eqn:Eo.
   - destruct o; try discriminate; cbn [step fst objs do_close]; destruct (closed s); cbn; apply (ok_objs _ Hs).
   - rewrite (step_api s o Eo).
-    pose proof (compile_good s o (ok_objs _ Hs) (ok_conf _ Hs)) as G.
+    pose proof (compile_good _ _ s o (ok_objs _ Hs) (ok_conf _ Hs)) as G.
     destruct (compile s o) as [[cmds ok] upd]. destruct G as (_ & G & _).
     destruct (exec (clear_log (st s)) cmds) as [st' done]. cbn [fst objs].
     match goal with |- objs_ok (if ?b then _ else _) => destruct b end; [exact G | apply (ok_objs _ Hs)].
@@ -109,7 +113,7 @@ Proof.
       cbn [step fst do_close closed st objs conf sbv session] in *.
       destruct (closed s) eqn:Ecl.
       * constructor; cbn; try apply Hs; auto. intros _ H. apply (ok_closed _ Hs); auto.
-      * cbn [st objs conf sbv closed]. rewrite Hc. unfold close_store. cbn [c_extend_close cfg_fixed].
+      * cbn [st objs conf sbv closed]. rewrite Hc. unfold close_store. cbn [c_extend_close gcfg].
         constructor; cbn; try apply Hs; auto.
         -- intros H. pose proof (ok_fs _ Hs H). lia.
         -- intros _ H. lia.
@@ -121,7 +125,7 @@ Proof.
       { intros stc ->. unfold do_close, cleared. cbn [closed].
         destruct (closed s) eqn:Ecl; cbn [st].
         - cbn. repeat split; auto. + apply (ok_closed _ Hs); auto. + apply (ok_fs _ Hs); auto.
-        - rewrite Hc. unfold close_store. cbn [c_extend_close cfg_fixed]. cbn. repeat split; auto; try lia.
+        - rewrite Hc. unfold close_store. cbn [c_extend_close gcfg]. cbn. repeat split; auto; try lia.
           pose proof (ok_fs _ Hs H). lia. }
       specialize (Hd _ eq_refl). destruct Hd as (Hx & Hov & Hf).
       unfold cleared in *.
@@ -136,11 +140,11 @@ Proof.
       * rewrite Hov. intros H. destruct (closed s); cbn; lia.
       * discriminate.
   - (* API call *)
-    pose proof (compile_good s o (ok_objs _ Hs) (ok_conf _ Hs)) as G.
-    assert (HC : cmds_ok cfg_fixed (targets s o) [] (fst (fst (compile s o))) = true).
+    pose proof (compile_good _ _ s o (ok_objs _ Hs) (ok_conf _ Hs)) as G.
+    assert (HC : cmds_ok cfgb (targets s o) [] (fst (fst (compile s o))) = true).
     { destruct (compile s o) as [[cmds ok] upd]. destruct G as (G & _). exact G. }
     assert (HK : ovf (st (fst (step s o))) = false ->
-                 keeps cfg_fixed (targets s o) (next (al (st s))) (clear_log (st s)) (st (fst (step s o))))
+                 keeps cfgb (targets s o) (next (al (st s))) (clear_log (st s)) (st (fst (step s o))))
       by (intros H; apply step_api_keeps; auto).
     assert (Hfields : conf (fst (step s o)) = conf s /\ sbv (fst (step s o)) = sbv s /\ closed (fst (step s o)) = closed s).
     { rewrite (step_api s o Eo). destruct (compile s o) as [[cmds ok] upd].
@@ -189,7 +193,7 @@ Ltac init_goal :=
         | (repeat constructor; apply N.leb_le; vm_compute; reflexivity)
         | (intros _; apply N.leb_le; vm_compute; reflexivity) ].
 
-Lemma init_ok : forall sb, st_ok (init cfg_fixed sb).
+Lemma init_ok : forall sb, st_ok (init cfgb sb).
 Proof.
   intros sb. destruct (sb =? 0) eqn:E.
   - apply N.eqb_eq in E. subst sb.
@@ -213,8 +217,8 @@ Theorem step_writes_legal : forall s o, st_ok s -> ovf (st (fst (step s o))) = f
 Proof.
   intros s o Hs Hov w Hw. destruct (is_session_op o) eqn:Eo.
   - rewrite (step_session_nolog s o Eo) in Hw. destruct Hw.
-  - pose proof (compile_good s o (ok_objs _ Hs) (ok_conf _ Hs)) as G.
-    assert (HC : cmds_ok cfg_fixed (targets s o) [] (fst (fst (compile s o))) = true).
+  - pose proof (compile_good _ _ s o (ok_objs _ Hs) (ok_conf _ Hs)) as G.
+    assert (HC : cmds_ok cfgb (targets s o) [] (fst (fst (compile s o))) = true).
     { destruct (compile s o) as [[cmds ok] upd]. destruct G as (G & _). exact G. }
     pose proof (step_api_keeps s o _ Hs Eo HC Hov) as K.
     destruct (k_log _ _ _ _ _ K Hov) with (w := w) as [H|H]; auto.
@@ -231,8 +235,8 @@ Proof.
   - destruct o; try discriminate; cbn [step fst st do_close cleared closed] in *;
       destruct (closed s); cbn in *; unfold close_store in *; destruct (c_extend_close (conf s)); cbn in *;
         split; auto; apply incl_refl.
-  - pose proof (compile_good s o (ok_objs _ Hs) (ok_conf _ Hs)) as G.
-    assert (HC : cmds_ok cfg_fixed (targets s o) [] (fst (fst (compile s o))) = true).
+  - pose proof (compile_good _ _ s o (ok_objs _ Hs) (ok_conf _ Hs)) as G.
+    assert (HC : cmds_ok cfgb (targets s o) [] (fst (fst (compile s o))) = true).
     { destruct (compile s o) as [[cmds ok] upd]. destruct G as (G & _). exact G. }
     pose proof (step_api_keeps s o _ Hs Eo HC Hov) as K. split.
     + apply (k_incl _ _ _ _ _ K).
@@ -262,8 +266,8 @@ Theorem step_fail_legal : forall s o, st_ok s -> is_session_op o = false -> op_f
   legal (fail_targets o) (next (al (st s))) (exts (st (fst (step s o)))) w.
 Proof.
   intros s o Hs Eo Hf Hov w Hw.
-  pose proof (compile_good s o (ok_objs _ Hs) (ok_conf _ Hs)) as G.
-  assert (HC : cmds_ok cfg_fixed (fail_targets o) [] (fst (fst (compile s o))) = true).
+  pose proof (compile_good _ _ s o (ok_objs _ Hs) (ok_conf _ Hs)) as G.
+  assert (HC : cmds_ok cfgb (fail_targets o) [] (fst (fst (compile s o))) = true).
   { unfold op_fails in Hf. destruct (compile s o) as [[cmds ok] upd]. cbn in Hf. destruct G as (_ & _ & G & _). apply G; exact Hf. }
   pose proof (step_api_keeps s o _ Hs Eo HC Hov) as K.
   destruct (k_log _ _ _ _ _ K Hov) with (w := w) as [H|H]; auto.
@@ -276,14 +280,15 @@ Qed.
 (* a failing call that is not a creation, a new attribute, a hard link or a chunked write
    performs no allocation and no write at all *)
 Theorem step_fail_quiet : forall s o, st_ok s -> is_session_op o = false -> op_fails s o ->
-  may_leave_bytes o = false ->
+  may_leave_bytes bp ba o = false ->
   st (fst (step s o)) = clear_log (st s) /\ objs (fst (step s o)) = objs s.
 Proof.
   intros s o Hs Eo Hf Hm.
-  pose proof (compile_good s o (ok_objs _ Hs) (ok_conf _ Hs)) as G.
+  pose proof (compile_good _ _ s o (ok_objs _ Hs) (ok_conf _ Hs)) as G.
   rewrite (step_api s o Eo). unfold op_fails in Hf.
   destruct (compile s o) as [[cmds ok] upd]. cbn in Hf. subst ok.
-  destruct G as (_ & _ & _ & G). rewrite (G eq_refl Hm). cbn.
+  destruct G as (_ & _ & _ & G & G5). rewrite (G eq_refl Hm). cbn.
+  rewrite (G5 eq_refl (G eq_refl Hm)).
   destruct o; try discriminate; auto.
 Qed.
 
@@ -313,7 +318,7 @@ Fixpoint run_writes (s : state) (h : list op) : list (N * N) :=
 
 Definition settled (F : N) (E : list extent) (s : state) : Prop :=
   fsize (st s) = F /\ next (al (st s)) = F /\ exts (st s) = E /\ ovf (st s) = false /\
-  sb_size (sbv s) <= F /\ conf s = cfg_fixed.
+  sb_size (sbv s) <= F /\ conf s = cfgb.
 
 Lemma quiet_step_settled : forall F E s o, settled F E s -> quiet_step s o ->
   settled F E (fst (step s o)) /\ wlog (st (fst (step s o))) = [].
@@ -325,13 +330,13 @@ Proof.
   - (* Close *)
     cbn [step fst]. unfold settled, do_close. cbn [closed].
     destruct (closed s); cbn [st sbv conf closed wlog clear_log fsize al exts ovf next]; [repeat split; auto|].
-    rewrite H6. unfold close_store. cbn [c_extend_close cfg_fixed fsize al exts ovf next wlog clear_log].
+    rewrite H6. unfold close_store. cbn [c_extend_close gcfg fsize al exts ovf next wlog clear_log].
     rewrite H1, H2. repeat split; auto. lia.
   - (* Reopen *)
     cbn [step fst]. unfold settled, do_close. cbn [closed].
     destruct (closed s); cbn [st sbv conf closed wlog clear_log fsize al exts ovf next reopen_store].
     + rewrite H1. repeat split; auto. lia.
-    + rewrite H6. unfold close_store. cbn [c_extend_close cfg_fixed fsize al exts ovf next wlog clear_log].
+    + rewrite H6. unfold close_store. cbn [c_extend_close gcfg fsize al exts ovf next wlog clear_log].
       rewrite H1, H2. repeat split; auto; lia.
 Qed.
 
@@ -380,3 +385,5 @@ Proof.
     unfold close_store. destruct (c_extend_close (conf s)); cbn; exact Hin. }
   specialize (HF _ Hin1). right. subst e. cbn. exact HF.
 Qed.
+
+End WithPatches.
